@@ -133,6 +133,8 @@ class C15:
         nthreads = 1 if rng.random() < 0.55 else rng.randint(2, 3)
         cfg = {"width": rng.choice([20, 40, 80]), "color": rng.choice(COLORS), "terminal": rng.random() < 0.6,
                "opcode": nthreads > 1 and rng.random() < 0.5}
+        if rng.random() < 0.12:
+            cfg["no_color"] = True  # colours are removed on the way to the file (attributes stay)
         threads = []
         for t in range(nthreads):
             n = rng.randint(1, (20 if thorough else 10) if nthreads == 1 else 5)
@@ -309,7 +311,7 @@ class C15:
                             c = copy.deepcopy(case)
                             c["threads"][i][j][1][k][1] = ""
                             yield c
-        for key, val in (("color", None), ("terminal", False), ("opcode", False)):
+        for key, val in (("color", None), ("terminal", False), ("opcode", False), ("no_color", None)):
             if case["cfg"].get(key) != val:
                 c = copy.deepcopy(case)
                 c["cfg"][key] = val
@@ -327,8 +329,8 @@ class Prog:
         self.file = SimFile(sim, tty=cfg["terminal"])
         self.console = Console(file=self.file, width=cfg["width"], height=25, force_terminal=cfg["terminal"],
                                color_system=cfg["color"], _environ={}, get_time=self.clock.time, get_datetime=self.clock.datetime,
-                               log_time=False, log_path=False, record=True)
-        self.pristine = Pristine(cfg["width"], 25, cfg["color"], clock=self.clock, terminal=cfg["terminal"])
+                               log_time=False, log_path=False, record=True, no_color=bool(cfg.get("no_color")))
+        self.pristine = Pristine(cfg["width"], 25, cfg["color"], clock=self.clock, terminal=cfg["terminal"], no_color=bool(cfg.get("no_color")))
         self.viol = []
         self.save_files = {}
         self.nsaves = 0
@@ -547,7 +549,7 @@ class Prog:
                 if "".join(c for c, _ in dec) != V:
                     self._v("export-styled", "styled-export-text", "export_text(styles=True) decodes to %r, file shows %r" % ("".join(c for c, _ in dec)[:300], V[:300]))
                 elif self.cfg["color"] is not None:
-                    colors = self.cfg["color"] == "truecolor"
+                    colors = self.cfg["color"] == "truecolor" and not self.cfg.get("no_color")
                     a = styled_chars(got, colors)
                     b = styled_chars(raw, colors)
                     if a != b:
